@@ -44,7 +44,7 @@ pub fn spec(prop: &str) -> Option<(&'static str, &'static str, Vec<Config>)> {
     "C14" => ("e4", "seeded histories over three map key types (two sharing a value type) and two unrelated resource types in one Pie: direct edits, reads, writer operations (insert / get / get_mut / entry), stamps by three routes, checks of remembered stamps, an incremental task reading and writing through the context, and raw typed state accesses (get / get_mut / set / get_boxed(_mut) / set_boxed / get_or_set_default(_mut)) with matching and non-matching state types; after every operation the returned value and the complete observable state of every resource type equal the model. Non-trivial = >= 3 resource types hold state and a remembered stamp was checked.",
       vec![c("mix", 300_000, 10_000_000)]),
     "C15" => ("e1", "class-W programs over task families T<0>, T<1>, Box<T<2>>, Rc<T<3>>, Arc<T<4>> and the wrappers Box<T<0>>, Rc<T<0>> around the very type of family 0, and resource families R<0>, R<1>, all with coinciding ids, hashes and Debug text; every scenario starts with direct trait-object equality probes over all key pairs; oracles: from-scratch outputs (scripts differ per key), one node per key in the store dump, dependencies attached to the right node. Non-trivial = some session both reused and re-executed tasks.",
-      vec![c("id-td", 240_000, 2_500_000), c("id-bu", 180_000, 2_000_000), c("td", 90_000, 1_000_000)]),
+      vec![c("id-td", 240_000, 2_500_000), c("id-bu", 180_000, 2_000_000), c("td", 90_000, 1_000_000), c("id-bu-crash", 120_000, 1_000_000)]),
     "C16" => ("e1", "every scenario is replayed under perturbations that must not matter: another hash seed, after unrelated instances were built and dropped on the same thread, in a fresh thread, with OS-random hash seeds, and (configurations *-replay-proc) in a second process with OS-random hash seeds; the complete unified event log (task-side, checker-side, resource-side and tracker events incl. stamps) must be identical. Non-trivial = some session both reused and re-executed tasks.",
       vec![c("td-replay", 20_000, 700_000), c("bu-replay", 20_000, 700_000), c("bu-mixed-replay", 10_000, 300_000), c("bu-big-replay", 60_000, 1_500_000), c("files-replay", 8_000, 200_000), c("td-replay-thread", 2_000, 100_000), c("bu-replay-thread", 2_000, 100_000), c("td-replay-proc", 250, 20_000), c("bu-replay-proc", 250, 20_000)]),
     "C17" => ("e1", "tracker = Composite(Rec, Composite(EventTracker, Rec)) in every scenario (top-down, bottom-up, checker errors, diagnosed violations): both recorders identical, strict stack nesting, execute / check / require events match the task-side and checker-side logs, EventTracker contents, indices and every helper x event x key (incl. a foreign key) equal a reference scan. Non-trivial = some session both reused and re-executed tasks.",
@@ -54,7 +54,7 @@ pub fn spec(prop: &str) -> Option<(&'static str, &'static str, Vec<Config>)> {
     "C19" => ("e1", "class-W, class-X and class-V scenarios with aborts: injected panics at seeded ticks (any operation of any task at any depth, inside write functions and checker calls) and diagnosed violations; the instance is used again: later top-down sessions must return from-scratch results, abort only for an existing violation or with a listed stale-edge signature, never with an internal error; the world after an abort holds exactly the writes that happened. Non-trivial = a crash fired and a later top-down session returned.",
       vec![c("td-crash", 240_000, 3_000_000), c("bu-crash", 150_000, 2_000_000), c("x-any-td", 180_000, 2_000_000), c("x-any-crash", 120_000, 1_000_000), c("v-td-crash", 120_000, 1_000_000)]),
     "C20" => ("e1", "class-W programs (any diagnostic abort is a violation) and class-V programs (two or three well-formed sub-programs with different role assignments selected by a mode resource; every state is violation-free): a diagnostic abort must exist in a from-scratch build of all known tasks, else it must be explained by recorded dependencies of tasks not yet validated in the session (stale-edge signature: listed finding or violation); unexplained aborts and internal errors are violations. Non-trivial = a diagnostic abort happened or a session both reused and re-executed.",
-      vec![c("v-td", 240_000, 2_500_000), c("v-bu", 120_000, 1_500_000), c("td", 120_000, 1_000_000), c("bu-mixed", 120_000, 1_000_000), c("bu-big", 60_000, 500_000), c("v-bu-big", 180_000, 1_500_000), c("v-td-crash", 120_000, 1_000_000)]),
+      vec![c("v-td", 240_000, 2_500_000), c("v-bu", 120_000, 1_500_000), c("td", 120_000, 1_000_000), c("bu-mixed", 120_000, 1_000_000), c("bu-big", 60_000, 500_000), c("v-bu-big", 180_000, 1_500_000), c("v-td-crash", 120_000, 1_000_000), c("v-td-checkerr", 120_000, 1_000_000)]),
     _ => return None,
   })
 }
